@@ -531,6 +531,10 @@ class SymReal(Sym):
         return SymReal(z3.If(self.t >= 0, self.t, -self.t))
 
     def _cmp(self, o, f):
+        if isinstance(o, float) and o in (float("inf"), float("-inf")):
+            # a finite real against +-inf: the comparison is decided by the sign of the infinity
+            big = z3.RealVal(1) if o > 0 else z3.RealVal(-1)
+            return SymBool(z3.simplify(f(z3.RealVal(0), big)))
         try:
             o = as_real(o)
         except ShadowAbort:
